@@ -18,14 +18,30 @@ for d in sorted(os.listdir(os.path.join(VERIF, "seeded"))):
     others = [p for p in m.get("caught_by", []) if p != m["property"]]
     rows.append("| %s | %s | %s | %s | %s |" % (d, notes, "**yes**" if m["property"] in m.get("caught_by", []) else "NO", cls, ", ".join(others) or "–"))
 text = []
-text.append("Sixty changes were written by independent sub-agents, each given only the text of one property and a scratch")
-text.append("worktree of /repo (nothing from /verif).  A change is kept under `seeded/<id>/` only after `tools/seed_eval.py` confirmed in a")
-text.append("fresh scratch worktree that the patch applies, the 160 baseline tests still pass and the demonstration exits 1 with / 0")
-text.append("without the change; then the property's quick check (and related ones) is run with `--repo <worktree>`.")
-text.append("The first evaluation caught 43 of 60; the 17 misses (value-semantics node classes, stale memos only visible on re-used")
-text.append("objects, re-entrant hooks, deep spines, falsy constructor parents, wildcard characters in names, `None`/unhashable search")
-text.append("values, predicates changing between two iterations of one exporter, library spins / unexpected exceptions) led to the")
-text.append("additions of §9; the table shows the state after them.")
+text.append("180 changes were written in three rounds by independent sub-agents, each given only the text of one property and a")
+text.append("scratch worktree of /repo (nothing from /verif).  Round 1 asked for three subtle test-surviving changes per property; round 2 for")
+text.append("one change each of the styles *state across calls*, *rare argument / class / option*, *cooperating sites or failure path*; round 3 for")
+text.append("*one copy / one class only*, *feature interaction* and *sneakiest*.  A change is kept under `seeded/<id>/` only after")
+text.append("`tools/seed_eval.py` confirmed in a fresh scratch worktree that the patch applies, the 160 baseline tests still pass and the")
+text.append("demonstration exits 1 with / 0 without the change; then the property's quick check (and related ones) is run with `--repo <worktree>`.")
+text.append("")
+text.append("First-evaluation results (own property check): round 1 caught 43 of 60, round 2 53 of 60, round 3 59 of 60.  Every miss was")
+text.append("analysed and led to the additions of section 9 (value-semantics / falsy node classes, stale memos only visible on re-used objects,")
+text.append("restricted re-entrant hooks, deep spines, falsy constructor parents, wildcard characters in names, `None`/unhashable search values,")
+text.append("exporter / resolver / RenderTree / predicate objects re-used across changes and aborted calls, library spins and unexpected exceptions")
+text.append("as witnesses, observer-effect-free calls on fresh nodes).  The table shows the state after them: 178 of 180 are caught by the check")
+text.append("of their own property; `C05-m6` (a children-list alias taken before a pre hook, a nodemixin defect that an iterator check cannot")
+text.append("see without re-entrant hooks) is caught by C02 and C16; `C06-m6` (an iterator object re-used after its `stop` callback raised on")
+text.append("the very first `next()`) is not caught - the statement of C06 says nothing about iterators that were interrupted by an exception,")
+text.append("so no monitor was added for it.")
+text.append("")
+text.append("False-alarm test: fifteen behaviour-preserving refactorings written by another independent sub-agent (given all twenty property")
+text.append("texts; `seeded/equivalent/e01..e15`: non-recursive iterators, in-place detach by identity, restructured loop/duplicate checks,")
+text.append("re-implemented navigation attributes, Resolver get/glob/cache rewrites, RenderTree without recursion, Walker by index arithmetic,")
+text.append("non-recursive dict export/import, attribute insertion order of `Node` changed, DOT/Mermaid edge statements emitted in another order,")
+text.append("escaping by `str.replace`, ...) were applied one at a time and all twenty quick checks run against each: 300 runs, no alarm")
+text.append("(`tools/eq_eval.py`, `seeded/equivalent_refactorings.json`).  Two over-strict oracles had been found and loosened before by such an")
+text.append("experiment (key order of plain dicts in C10/C11; iterator-protocol details in C05; exact word order of the CountError message in C14).")
 text.append("")
 text.append("| change | what it is / what it needs to manifest (from the author's notes) | caught by own check | witness classes | also caught by |")
 text.append("|--------|------|------|------|------|")
